@@ -146,7 +146,7 @@ def getitem(I, o, k):
                     return o[j]
         raise Unsupported(f"index {k!r} of a concrete sequence")
     if isinstance(o, dict):
-        hk = hashable(k)
+        hk = canon_key(o.keys(), k)
         if hk not in o:
             if isinstance(o, DDict):
                 o[hk] = I.call(o.factory, [], {})
@@ -205,7 +205,7 @@ def getslice(I, o, lo, hi, step):
 
 def setitem(I, o, k, v):
     if isinstance(o, dict):
-        o[hashable(k)] = v
+        o[canon_key(o.keys(), k)] = v
         return
     if isinstance(o, list) and isinstance(k, int):
         if not -len(o) <= k < len(o):
@@ -218,10 +218,47 @@ def setitem(I, o, k, v):
     raise Unsupported(f"item assignment on {type(o).__name__}")
 
 
+_CUR = [None]  # the interpreter whose containers are being manipulated (set by make_builtins)
+
+
+def is_eqobj(x):
+    """objects of the repo with a custom __eq__ (e.g. Scope), and hashable containers of them: their equality as dict keys /
+    set members is SEMANTIC (decided by the solver, branching), not object identity"""
+    if isinstance(x, Obj):
+        I = _CUR[0]
+        return I is not None and I.repo.find_method(x.cls, "__eq__") is not None
+    if isinstance(x, (frozenset, tuple)):
+        return any(is_eqobj(e) for e in x)
+    return False
+
+
+def canon_key(keys, k):
+    """the representative of key k among `keys`: an existing key that is semantically equal (the path branches on each
+    comparison), else k itself"""
+    k = hashable(k)
+    if not is_eqobj(k):
+        return k
+    I = _CUR[0]
+    for kk in list(keys):
+        if kk is k:
+            return kk
+        if is_eqobj(kk) and type(kk) is type(k) and (not isinstance(k, Obj) or kk.cls is k.cls):
+            if I.decide(equal(I, k, kk)):
+                return kk
+    return k
+
+
+def eq_frozenset(items):
+    out = []
+    for x in items:
+        x = hashable(x)
+        if canon_key(out, x) is x and not any(x is y for y in out):
+            out.append(x)
+    return frozenset(out)
+
+
 def hashable(k):
     if isinstance(k, (int, str, bool, float, type(None), EnumVal, Obj, Opaque, ClassVal)):
-        if isinstance(k, Obj) and any(n in ("__eq__", "__hash__") for c in [k.cls] for n in c.methods):
-            raise Unsupported("dict/set keyed by objects with a custom __eq__")
         return k
     if isinstance(k, tuple):
         return tuple(hashable(x) for x in k)
@@ -684,6 +721,9 @@ def equal(I, a, b):
             return False
         return zand(*[equal(I, a[k], b[k]) for k in a])
     if isinstance(a, (set, frozenset)) and isinstance(b, (set, frozenset)):
+        if any(is_eqobj(x) for x in a) or any(is_eqobj(x) for x in b):
+            # semantic set equality: mutual containment under the elements' own equality
+            return zand(*[zor(*[equal(I, x, y) for y in b]) for x in a], *[zor(*[equal(I, x, y) for x in a]) for y in b])
         return a == b
     if isinstance(a, (ClassVal,)) and isinstance(b, ClassVal):
         return a.ci is b.ci
@@ -702,7 +742,9 @@ def contains(I, cont, x):
         k = z3.Int(I.path.fresh_name("k_in"))
         return z3.Exists([k], z3.And(k >= 0, k < to_z3(cont.length), to_z3(cont.elem(k)) == to_z3(x)))
     if isinstance(cont, dict):
-        return hashable(x) in cont
+        return canon_key(cont.keys(), x) in cont
+    if isinstance(cont, (set, frozenset)) and (is_eqobj(x) or any(is_eqobj(c) for c in cont)):
+        return canon_key(cont, x) in cont
     if isinstance(cont, (list, tuple, set, frozenset)):
         if is_z3(x) or any(is_z3(c) for c in cont):
             return zor(*[equal(I, x, c) for c in cont])
@@ -794,7 +836,7 @@ def getattr_(I, o, name):
         return _list_method(I, o, name)
     if isinstance(o, (set,)):
         if name == "add":
-            return BoundBuiltin(lambda x: o.add(hashable(x)))
+            return BoundBuiltin(lambda x: o.add(canon_key(o, x)))
         if name == "pop":
             return BoundBuiltin(lambda: o.pop())
     if isinstance(o, SymSet):
@@ -887,7 +929,7 @@ def _dict_method(I, d, name):
     if name == "values":
         return BoundBuiltin(lambda: list(d.values()))
     if name == "get":
-        return BoundBuiltin(lambda k, default=None: d.get(hashable(k), default))
+        return BoundBuiltin(lambda k, default=None: d.get(canon_key(d.keys(), k), default))
     if name == "copy":
         return BoundBuiltin(lambda: dict(d))
     if name == "pop":
@@ -900,7 +942,7 @@ def _dict_method(I, d, name):
             I.raise_("KeyError")
         return BoundBuiltin(pop)
     if name == "setdefault":
-        return BoundBuiltin(lambda k, default=None: d.setdefault(hashable(k), default))
+        return BoundBuiltin(lambda k, default=None: d.setdefault(canon_key(d.keys(), k), default))
     if name == "update":
         def update(other=(), **kw):
             if isinstance(other, dict):
@@ -1036,6 +1078,7 @@ def _card_arr(I, arr, depth):
 
 # ---------------------------------------------------------------------- builtins
 def make_builtins(I):
+    _CUR[0] = I
     def b_len(x):
         if isinstance(x, IterVal):
             x = x.seq
@@ -1240,6 +1283,13 @@ def make_builtins(I):
     def b_frozenset(x=None):
         if x is None:
             return frozenset()
+        if not isinstance(x, (SymSet, SymSeq, set, frozenset)) or (isinstance(x, (set, frozenset)) and any(is_eqobj(e) for e in x)):
+            try:
+                items = iterate(I, x)
+            except Unsupported:
+                items = None
+            if items is not None and items and all(isinstance(e, (Obj, frozenset, tuple, str)) for e in items):
+                return eq_frozenset(items)
         if isinstance(x, (set, frozenset)):
             return frozenset(x)
         if isinstance(x, (list, tuple)) and all(isinstance(e, int) for e in x):
